@@ -248,7 +248,7 @@ func runSelftest(rounds int, verbose bool) (nseeds, checked, mism int) {
 				lineStart := s == 0 || src[s-1] == '\n'
 				if lineStart {
 					c.slotAt = s
-					c.slot = []string{"\n", "# c\n", "#x y\n  \n"}[rng.Intn(3)]
+					c.slot = []string{"\n", "# c\n", "#x y\n  \n", slotMultiByteLine}[rng.Intn(4)]
 				}
 			}
 			text := c.text()
